@@ -9,7 +9,7 @@ package PVM
 func VerifC33Omega(operation OperationType) Omega { return getOmega(RefineOmegas, operation) }
 
 // VerifC33Heap reads the unexported heap pointer / heap limit of an inner machine's memory.
-func VerifC33Heap(m *Memory) (uint64, uint64) { return m.heapPointer, m.heapLimit }
+func VerifC33Heap(m *Memory) (uint64, uint64) { return verifHeap(m) }
 
 // VerifC33NewMemory builds an empty guest memory (heap pointer and limit 0) for the outer machine.
 func VerifC33NewMemory() *Memory { return &Memory{Pages: make(map[uint32]*Page)} }
